@@ -2,15 +2,19 @@
     Forward scans of a stream or partition, from any start position and with any batch size,
     return exactly the stored events at or after that position, each once, in strictly increasing
     position order with no gaps and never an event of another stream; results do not depend on
-    where the events are stored (open segment, sealed segments, after reopen).
+    where the events are stored (open segment, sealed segments, after reopen).  Reverse scans
+    return the same set at or before the position, grouped by transaction, newest first.
 
     All theorems are stated under [Scannable s k] (Proofs/ScanStore.v): every sealed segment and the
     published part of the live segment are concatenations of committed groups indexed by exactly
-    their events (S1,S2); the key's events carry positions 0,1,2,.. in log order, all <= u64::MAX
-    (S3); a transaction touching the scanned partition lies in that partition (S4).  [Scannable]
-    is what the writer's invariant gives for every reachable store (glued in StoreInv). *)
+    their events (S1,S2); the key's events carry positions 0,1,2,.. in log order (S3); a
+    transaction touching the scanned partition lies in that partition (S4).  [Scannable] is what
+    the writer's invariant gives for every reachable store.  Reverse scans additionally need
+    [U64ok s k]: the key's positions fit the u64 fields (the iterator treats the start position
+    u64::MAX specially); the real fields are u64, the model's are unbounded. *)
 From Coq Require Import NArith List Bool.
-From SV Require Import Model.StoreIter Proofs.ScanProofs.
+From SV Require Import Model.StoreIter Proofs.ScanProofs Proofs.ScanGlue.
+From SV Require Proofs.StoreSimProofs.
 Import ListNotations.
 Open Scope N_scope.
 
@@ -61,6 +65,127 @@ Theorem C03_same_after_reopen : forall s k from limit,
     scan_events b1 = scan_events b2 /\ map committed_events (concat b1) = map committed_events (concat b2).
 Proof. exact forward_same_after_reopen. Qed.
 
+(* shape of the forward groups: each is the key's part of one stored transaction, cut at [from];
+   it is a suffix of the key's events of that transaction, and every group but the first is whole *)
+Theorem C03_forward_group_shape : forall s k from limit batches, Scannable s k -> (0 < limit)%nat ->
+  scan s k from Fwd limit = Some batches ->
+  let groups := map committed_events (concat batches) in
+  Forall (fun l => exists t pre, In t (abs_visible s) /\ l <> [] /\
+                     l = filter (fun e => matches k e && (from <=? key_pos k e)) t /\
+                     filter (matches k) t = pre ++ l) groups /\
+  (forall pre l rest, groups = pre ++ l :: rest -> pre <> [] ->
+     exists t, In t (abs_visible s) /\ l = filter (matches k) t).
+Proof. exact forward_group_shape. Qed.
+
+(** ** reverse scans (the reading fixed by the check's monitor): one group per event of the key at
+    or before [from], newest first; the group of an event is that event followed by the key's
+    later events of the same transaction (so a group may repeat events of its own transaction,
+    possibly beyond [from], and nothing else) *)
+Theorem C03_reverse_groups : forall s k from limit, Scannable s k -> U64ok s k -> (0 < limit)%nat ->
+  exists batches, scan s k from Rev limit = Some batches /\
+    map committed_events (concat batches)
+    = rev (map ucons (filter (fun x => key_pos k (fst x) <=? from)
+                             (concat (map (ksufp k) (abs_visible s))))) /\
+    Forall (fun b => 1 <= length b <= limit)%nat batches.
+Proof. exact reverse_groups. Qed.
+
+(* the events at or before [from] in the result are exactly those of the specification *)
+Theorem C03_reverse_exact : forall s k from limit batches, Scannable s k -> U64ok s k -> (0 < limit)%nat ->
+  scan s k from Rev limit = Some batches ->
+  forall e, In e (filter (fun e => key_pos k e <=? from) (scan_events batches)) <->
+            In e (filter (fun e => matches k e && (key_pos k e <=? from)) (all_events (abs_visible s))).
+Proof. exact reverse_exact. Qed.
+
+(* every group is a suffix of the key's events of one stored transaction; its first element is at or before [from] *)
+Theorem C03_reverse_group_shape : forall s k from limit batches, Scannable s k -> U64ok s k -> (0 < limit)%nat ->
+  scan s k from Rev limit = Some batches ->
+  Forall (fun l => exists t pre e rest, In t (abs_visible s) /\ t = pre ++ e :: rest /\
+                     matches k e = true /\ key_pos k e <= from /\ l = e :: filter (matches k) rest)
+         (map committed_events (concat batches)).
+Proof. exact reverse_group_shape. Qed.
+
+(* the first elements of successive groups are at positions n-1, n-2, .., 0: strictly decreasing, no gap *)
+Theorem C03_reverse_heads : forall s k from limit batches, Scannable s k -> U64ok s k -> (0 < limit)%nat ->
+  scan s k from Rev limit = Some batches ->
+  let groups := map committed_events (concat batches) in
+  map (head_pos k) groups = map N.of_nat (rev (seq 0 (length groups))).
+Proof. exact reverse_heads. Qed.
+
+(* from = u64::MAX: every event of the key, and nothing else *)
+Theorem C03_reverse_all : forall s k limit batches, Scannable s k -> U64ok s k -> (0 < limit)%nat ->
+  scan s k U64MAX Rev limit = Some batches ->
+  forall e, In e (scan_events batches) <-> (In e (all_events (abs_visible s)) /\ matches k e = true).
+Proof. exact reverse_all. Qed.
+
+Theorem C03_reverse_independent : forall s1 s2 k from limit, Scannable s1 k -> Scannable s2 k -> U64ok s1 k ->
+  abs_visible s1 = abs_visible s2 -> (0 < limit)%nat ->
+  exists b1 b2, scan s1 k from Rev limit = Some b1 /\ scan s2 k from Rev limit = Some b2 /\
+    map committed_events (concat b1) = map committed_events (concat b2).
+Proof. exact reverse_independent. Qed.
+
+(* no "event not found at offset", no exhausted fuel: a scan of a Scannable store never fails *)
+Theorem C03_never_error : forall s k from d limit, Scannable s k -> (d = Rev -> U64ok s k) ->
+  scan s k from d limit <> None.
+Proof. exact never_error. Qed.
+
+(** ** the same for every reachable store: [run ops] for any list of appends (any rollover /
+    size decisions), syncs, reopens and crashes; the only hypothesis on the history is the one
+    [Transaction::new] enforces (a transaction has an event; the single-event flag only on
+    single-event transactions).  [Scannable] follows from the writer's invariant (ScanGlue). *)
+Theorem C03_reachable_scannable : forall ops k, Forall StoreSimProofs.wf_op ops -> Scannable (run ops) k.
+Proof. exact run_Scannable. Qed.
+
+Theorem C03_reachable_forward_exact : forall ops k from limit,
+  Forall StoreSimProofs.wf_op ops -> (0 < limit)%nat ->
+  exists batches, scan (run ops) k from Fwd limit = Some batches /\
+    scan_events batches
+    = filter (fun e => matches k e && (from <=? key_pos k e)) (all_events (abs_visible (run ops))).
+Proof. exact run_forward_exact. Qed.
+
+Theorem C03_reachable_forward_groups : forall ops k from limit,
+  Forall StoreSimProofs.wf_op ops -> (0 < limit)%nat ->
+  exists batches, scan (run ops) k from Fwd limit = Some batches /\
+    map committed_events (concat batches)
+    = filter nonnil (map (filter (fun e => matches k e && (from <=? key_pos k e))) (abs_visible (run ops))) /\
+    Forall (fun b => 1 <= length b <= limit)%nat batches.
+Proof. exact run_forward_groups. Qed.
+
+Theorem C03_reachable_forward_positions : forall ops k from limit batches,
+  Forall StoreSimProofs.wf_op ops -> (0 < limit)%nat ->
+  scan (run ops) k from Fwd limit = Some batches ->
+  map (key_pos k) (scan_events batches)
+  = map (fun i => from + N.of_nat i) (seq 0 (length (scan_events batches))).
+Proof. exact run_forward_positions. Qed.
+
+Theorem C03_reachable_independent_of_sealing : forall ops1 ops2 k from limit,
+  Forall StoreSimProofs.wf_op ops1 -> Forall StoreSimProofs.wf_op ops2 ->
+  abs_visible (run ops1) = abs_visible (run ops2) -> (0 < limit)%nat ->
+  exists b1 b2, scan (run ops1) k from Fwd limit = Some b1 /\ scan (run ops2) k from Fwd limit = Some b2 /\
+    scan_events b1 = scan_events b2 /\
+    map committed_events (concat b1) = map committed_events (concat b2).
+Proof. exact run_independent_of_sealing. Qed.
+
+Theorem C03_reachable_reverse_groups : forall ops k from limit,
+  Forall StoreSimProofs.wf_op ops -> U64ok (run ops) k -> (0 < limit)%nat ->
+  exists batches, scan (run ops) k from Rev limit = Some batches /\
+    map committed_events (concat batches)
+    = rev (map ucons (filter (fun x => key_pos k (fst x) <=? from)
+                             (concat (map (ksufp k) (abs_visible (run ops)))))) /\
+    Forall (fun b => 1 <= length b <= limit)%nat batches.
+Proof. exact run_reverse_groups. Qed.
+
+Theorem C03_reachable_reverse_exact : forall ops k from limit batches,
+  Forall StoreSimProofs.wf_op ops -> U64ok (run ops) k -> (0 < limit)%nat ->
+  scan (run ops) k from Rev limit = Some batches ->
+  forall e, In e (filter (fun e => key_pos k e <=? from) (scan_events batches)) <->
+            In e (filter (fun e => matches k e && (key_pos k e <=? from)) (all_events (abs_visible (run ops)))).
+Proof. exact run_reverse_exact. Qed.
+
+Theorem C03_reachable_never_error : forall ops k from d limit,
+  Forall StoreSimProofs.wf_op ops -> (d = Rev -> U64ok (run ops) k) ->
+  scan (run ops) k from d limit <> None.
+Proof. exact run_never_error. Qed.
+
 (** ** Examples: a store with two sealed segments and a live one (one unpublished append),
     multi-stream transactions, two partitions *)
 Definition ne id sid := mkNew id sid XAny true.
@@ -80,7 +205,7 @@ Example ex_shape : length (sealed ex_store) = 2%nat /\ published ex_store = 4%na
                    length (s_recs (live ex_store)) = 5%nat.
 Proof. vm_compute. auto. Qed.
 
-Lemma ex_scannable k : (k = KStream 7 \/ k = KStream 8 \/ k = KPartition 0 \/ k = KPartition 1 \/ k = KStream 99) ->
+Example ex_scannable k : (k = KStream 7 \/ k = KStream 8 \/ k = KPartition 0 \/ k = KPartition 1 \/ k = KStream 99) ->
   Scannable ex_store k.
 Proof.
   intros Hk. apply Scannable_check.
@@ -90,12 +215,17 @@ Proof.
   - vm_compute. auto.
   - apply seg_wf_check; vm_compute; reflexivity.
   - destruct Hk as [->|[->|[->|[->| ->]]]]; vm_compute; reflexivity.
-  - destruct Hk as [->|[->|[->|[->| ->]]]]; vm_compute; reflexivity.
   - vm_compute. reflexivity.
 Qed.
 
+Example ex_u64ok k : U64ok ex_store k.
+Proof. apply U64ok_check. destruct k; vm_compute; reflexivity. Qed.
+
 Example ex_scannable_stream : Scannable ex_store (KStream 7).
 Proof. apply ex_scannable. auto. Qed.
+(* the history of the example satisfies the hypothesis of the reachable-store theorems *)
+Example ex_ops_wf : Forall StoreSimProofs.wf_op ex_ops.
+Proof. repeat constructor; cbn; try discriminate; intros H; discriminate H. Qed.
 Example ex_scannable_partition : Scannable ex_store (KPartition 0).
 Proof. apply ex_scannable. auto 6. Qed.
 
@@ -117,6 +247,25 @@ Proof. vm_compute. reflexivity. Qed.
 Example ex_fwd_beyond : scan ex_store (KStream 7) 100 Fwd 3 = Some [].
 Proof. vm_compute. reflexivity. Qed.
 
+Example ex_rev_stream_all : show (scan ex_store (KStream 7) U64MAX Rev 2)
+  = Some [[[(12, 6, 9)]; [(10, 5, 7)]]; [[(8, 4, 6)]; [(7, 3, 5); (8, 4, 6)]];
+          [[(4, 2, 3)]; [(3, 1, 2)]]; [[(1, 0, 0); (3, 1, 2)]]].
+Proof. vm_compute. reflexivity. Qed.
+
+(* from = 3 falls inside transaction 103: its group starts at version 3 and repeats version 4 *)
+Example ex_rev_stream_mid : show (scan ex_store (KStream 7) 3 Rev 2)
+  = Some [[[(7, 3, 5); (8, 4, 6)]]; [[(4, 2, 3)]; [(3, 1, 2)]]; [[(1, 0, 0); (3, 1, 2)]]].
+Proof. vm_compute. reflexivity. Qed.
+
+Example ex_rev_partition : show (scan ex_store (KPartition 0) 4 Rev 3)
+  = Some [[[(6, 1, 4); (7, 3, 5); (8, 4, 6)]]; [[(4, 2, 3)]; [(3, 1, 2)]; [(2, 0, 1); (3, 1, 2)]];
+          [[(1, 0, 0); (2, 0, 1); (3, 1, 2)]]].
+Proof. vm_compute. reflexivity. Qed.
+
+(* sealing everything / reopening does not change what is visible *)
+Example ex_rollover_visible : abs_visible (rollover ex_store) = abs_visible (publish ex_store).
+Proof. apply abs_visible_rollover. Qed.
+
 Print Assumptions C03_forward_exact.
 Print Assumptions C03_forward_groups.
 Print Assumptions C03_forward_positions.
@@ -124,3 +273,19 @@ Print Assumptions C03_forward_no_foreign.
 Print Assumptions C03_independent_of_sealing.
 Print Assumptions C03_same_after_rollover.
 Print Assumptions C03_same_after_reopen.
+Print Assumptions C03_forward_group_shape.
+Print Assumptions C03_reverse_groups.
+Print Assumptions C03_reverse_exact.
+Print Assumptions C03_reverse_group_shape.
+Print Assumptions C03_reverse_heads.
+Print Assumptions C03_reverse_all.
+Print Assumptions C03_reverse_independent.
+Print Assumptions C03_never_error.
+Print Assumptions C03_reachable_scannable.
+Print Assumptions C03_reachable_forward_exact.
+Print Assumptions C03_reachable_forward_groups.
+Print Assumptions C03_reachable_forward_positions.
+Print Assumptions C03_reachable_independent_of_sealing.
+Print Assumptions C03_reachable_reverse_groups.
+Print Assumptions C03_reachable_reverse_exact.
+Print Assumptions C03_reachable_never_error.
